@@ -34,8 +34,9 @@ ASSUMPTIONS = [
     "(tools/validate_c14_grammar.py).",
     "Inserting a node underneath one of its own descendants (a cycle) is "
     "not generated: the statement's two sentences are silent on it.",
-    "Unlisted list methods (+=, *=, slice assignment, sort) are not "
-    "generated; the statement enumerates the operations covered."]
+    "children += items and children *= n are generated (they add "
+    "children); slice assignment/deletion and sort are not: the real list "
+    "refuses them outright."]
 
 
 def plan(tier):
@@ -262,7 +263,7 @@ class World:
 OPS = ["append", "addchild", "addchild_at", "insert", "extend", "pop",
        "pop_default", "remove", "setitem", "delitem", "reverse", "clear",
        "set_children", "detach", "replace_with", "pop_all", "new",
-       "new_with_parent"]
+       "new_with_parent", "iadd", "imul"]
 LEAF_KINDS = ["Literal", "Reference", "Return", "Schedule", "Literal",
               "Reference", "Loop", "Call", "ArrayReference"]
 
@@ -282,7 +283,7 @@ def gen_ops(rng, n):
               "csel": pick(rng, ["orphan", "orphan", "orphan", "any",
                                  "sibling", "fresh"]),
               "psel": pick(rng, ["inner", "inner", "any"])}
-        if name in ("extend", "set_children"):
+        if name in ("extend", "set_children", "iadd"):
             op["cs"] = [rng.randrange(1 << 16)
                         for _ in range(rng.randint(0, 3))]
             op["dup"] = rng.random() < 0.15
@@ -398,6 +399,13 @@ def execute(world, op):
         elif name == "extend":
             parent.children.extend(extra)
             desc = (name, pk, len(extra), bool(op.get("dup")))
+        elif name == "iadd":
+            kids = parent.children
+            kids += extra
+            desc = (name, pk, len(extra), bool(op.get("dup")))
+        elif name == "imul":
+            kids = parent.children
+            kids *= 2
         elif name == "pop":
             parent.children.pop(index)
         elif name == "pop_default":
